@@ -85,6 +85,13 @@ class Ctx:
 
         shutil.rmtree(self.work, ignore_errors=True)
         os.makedirs(self.work, exist_ok=True)
+        import glob
+
+        for old in glob.glob(os.path.join(REPLAYS, f"{pid}_*.json")):  # stale replay files of earlier runs
+            try:
+                os.remove(old)
+            except OSError:
+                pass
         self._known = self._load_known()
 
     # ------------------------------------------------------------------ known findings
